@@ -24,6 +24,11 @@ impl<const N: usize> Iterator for PxSrc<N> {
             None
         }
     }
+    /// exact, like the iterators of arrays, slices and Vecs that callers usually pass
+    fn size_hint(&self) -> (usize, Option<usize>) {
+        let rem = if self.k < N && self.k < self.n { (if self.n < N { self.n } else { N }) - self.k } else { 0 };
+        (rem, Some(rem))
+    }
 }
 
 /// `oob`: coordinates range over all of i32 x i32 (C02); otherwise in-bounds only (C03).
@@ -96,7 +101,7 @@ macro_rules! h {
         }
     };
 }
-//@ props=C02,C08 cfg=smallcap,nobatch inst="VModel<Rgb565,3,2>, draw_iter (capacities 4/8 under hook H4 / no batching)" bounds="0..=1 pixel with coordinates anywhere in i32 x i32; all cfgs on the 3x2 framebuffer" timeout=1500 mem=8
+//@ props=C02,C08,C03 cfg=smallcap,nobatch inst="VModel<Rgb565,3,2>, draw_iter (capacities 4/8 under hook H4 / no batching)" bounds="0..=1 pixel with coordinates anywhere in i32 x i32; all cfgs on the 3x2 framebuffer" timeout=1500 mem=8
 h!(c02_draw_iter_1, 3, draw_iter_h::<3, 2, 1>(true, false));
 //@ props=C02,C08 tier=thorough cfg=main inst="VModel<Rgb565,3,2>, draw_iter, real capacities 50/100" bounds="0..=1 pixel anywhere in i32 x i32; all cfgs" timeout=3000 mem=12
 h!(c02_draw_iter_1_real, 3, draw_iter_h::<3, 2, 1>(true, false));
@@ -120,3 +125,37 @@ h!(c03_bb_2real, 4, draw_iter_h::<3, 2, 2>(false, true));
 h!(c03_bb_3n, 5, draw_iter_h::<3, 2, 3>(false, true));
 //@ props=C03,C08,C20 tier=thorough required=no cfg=smallcap inst="VModel<Rgb565,3,2>, draw_iter, capacities 4/8" bounds="0..=3 in-bounds pixels; default cfg" timeout=7200 mem=30
 h!(c03_bb_3, 5, draw_iter_h::<3, 2, 3>(false, true));
+
+/// C20 black-box: a run of two horizontally adjacent in-bounds pixels, supplied left to right
+/// by an array iterator (exact size_hint), is one burst.
+#[kani::proof]
+#[kani::unwind(4)]
+//@ props=C20,C03 tier=thorough required=no cfg=smallcap inst="VModel<Rgb565,240,320>, draw_iter of a 2-pixel run from an array (capacities 4/8)" bounds="run start anywhere in a 2x2 corner, symbolic colours, default cfg" timeout=5400 mem=30
+fn c20_two_pixel_run() {
+    let probe = any_probe::<VModel<Rgb565, 240, 320>>();
+    let mut world = World::new(NEVER);
+    let cfg = Cfg { w: 240, h: 320, ox: 0, oy: 0, o: mipidsi::options::Orientation::new() };
+    let Some(mut d) = build::<_, u8, 0, false>(VModel::<Rgb565, 240, 320>::new(), &mut world, probe, &cfg) else {
+        return;
+    };
+    let (x, y): (u8, u8) = (kani::any(), kani::any());
+    kani::assume(x < 2 && y < 2);
+    let (c0, c1) = (<Rgb565 as Wire>::any(), <Rgb565 as Wire>::any());
+    let px = [Pixel(Point::new(x as i32, y as i32), c0), Pixel(Point::new(x as i32 + 1, y as i32), c1)];
+    d.draw_iter(px).unwrap();
+    let (ctl, _, _) = d.release();
+    let c = &ctl.c;
+    assert_framing(c);
+    assert!(c.pixels == 2, "[C03] both pixels are sent");
+    if cfg!(feature = "batch") {
+        assert!(c.ramwr_count == 1 && c.caset_count == 1, "[C20] two adjacent same-row pixels supplied left to right are one burst");
+    }
+    if probe == (x as u16, y as u16) {
+        assert!(c.probe_writes == 1 && c.probe_val == c0.wire(), "[C03] first pixel of the run");
+    } else if probe == (x as u16 + 1, y as u16) {
+        assert!(c.probe_writes == 1 && c.probe_val == c1.wire(), "[C03] second pixel of the run");
+    } else {
+        assert!(c.probe_writes == 0, "[C03] nothing else");
+    }
+    kani::cover!(probe == (x as u16 + 1, y as u16), "cover: second pixel hit");
+}
